@@ -69,7 +69,8 @@ def depfile_of(s):
 def command_of(s, by_out):
     if s.phony:
         return ""
-    parts = ["sim", "o=" + ",".join(enc(x) for x in s.all_outs() + s.extra_outs)]
+    # cmd_prefix: extra words right after "sim" (words without '=' mean nothing to the tool): places text at chosen offsets
+    parts = ["sim"] + list(getattr(s, "cmd_prefix", [])) + ["o=" + ",".join(enc(x) for x in s.all_outs() + s.extra_outs)]
     reads = expand_reads(s.ex + s.im, by_out) + s.extra_reads
     if reads:
         parts.append("r=" + ",".join(enc(x) for x in reads))
